@@ -1,0 +1,19 @@
+//! Verification hook (compiled only with `--cfg libp2p_verif`): read-only access to the
+//! identifier of a substream so that a harness can relate a `Substream` handed out by
+//! `poll_inbound` / `poll_outbound` to the frames it sees on the wire. No production code
+//! path is changed.
+
+use futures::{AsyncRead, AsyncWrite};
+
+/// `(number, local endpoint initiated the substream)` of a substream.
+pub fn substream_id<C>(s: &crate::Substream<C>) -> (u64, bool)
+where
+    C: AsyncRead + AsyncWrite + Unpin,
+{
+    // `LocalStreamId`'s fields are private to `codec`; its `Display` is "(num/initiator)" or
+    // "(num/receiver)".
+    let text = s.id.to_string();
+    let inner = text.trim_start_matches('(').trim_end_matches(')');
+    let (num, role) = inner.split_once('/').expect("LocalStreamId display format");
+    (num.parse().expect("LocalStreamId number"), role == "initiator")
+}
